@@ -188,8 +188,10 @@ InLimit == \/ Cap = 0 \/ Mutant = "claim_unlimited"
 \* a line that fills the buffer exactly is dispatched whole and once, possibly before its terminator
 \* was seen, and possibly followed by one empty line (ACap = 0: exactly AcceptableAt / Terminated)
 LineBody == (Reader # "frames" /\ InLimit) =>
-            /\ st = "done" => out \in AcceptableAtC(stream, cut, term, ACap)
-            /\ st # "done" => DuringOK(out, stream, n, ACap)
+            /\ st = "done" => out \in (IF ACap = 0 THEN AcceptableAt(stream, cut, term)
+                                                   ELSE AcceptableAtC(stream, cut, term, ACap))
+            /\ st # "done" => IF ACap = 0 THEN IsPrefixOf(out, Terminated(SubSeq(stream, 1, n), 1, 1))
+                                          ELSE DuringOK(out, stream, n, ACap)
 
 \* C13 (framing part): exactly the complete well-formed frames before the first malformed one,
 \* payloads intact; clean end only at a frame boundary, error otherwise
